@@ -8,10 +8,15 @@ from .. import cfg as cfgmod
 
 
 def self_field(e):
-    """field(deref(self), NAME) -> NAME"""
-    if e.op == "field" and e.args[0].op == "deref" and e.args[0].args[0].op == "leaf":
-        return e.args[1]
-    return None
+    """Field path (tuple of names) of an expression rooted at deref(self), looking through Option payloads / NonNull; None
+    otherwise. field(deref(self),'a') -> ('a',) ; field(field(deref(self),'site'),'ptr') -> ('site','ptr')."""
+    from .roles import self_path
+    p = self_path(e)
+    return p if p else None
+
+
+def pname(path):
+    return ".".join(path) if path else "?"
 
 
 class GuardRoles:
@@ -65,14 +70,16 @@ def guard_roles(tm):
     return g
 
 
-def guard_field(gv, adtfacts, name):
-    """Field `name` of an abstract guard value."""
-    if not isinstance(gv, Adt) or name is None:
+def guard_field(gv, adtfacts, path):
+    """Nested field `path` of an abstract guard value (looks through Option::Some / NonNull); an Option::None on the way
+    yields a null pointer constant (nothing mapped)."""
+    from .roles import get_by_path
+    if not isinstance(gv, Adt) or not path:
         return None
-    try:
-        return gv.field(name)
-    except ValueError:
-        return None
+    v = get_by_path(gv, path)
+    if v == "none":
+        return int_const(0, 64)
+    return v
 
 
 def pushed_guards(variant, guard_adt):
@@ -90,23 +97,35 @@ def pushed_guards(variant, guard_adt):
 
 
 def container_field(expr):
-    """vec_content(field(deref(field(self,'lib')), 'guards')) -> ('guards', owner expr)"""
-    if expr.op == "vec_content" and expr.args[0].op == "field":
-        return expr.args[0].args[1], expr.args[0].args[0]
+    """vec_content(field(deref(field(self,'lib')), 'guards')) -> ('guards', owner expr); with wrapper types the first field
+    name under the dereferenced owner is returned."""
+    from .roles import expr_field_names
+    names, root = expr_field_names(expr)
+    if names:
+        return names[0], root
     return None, None
 
 
+def container_names(expr):
+    from .roles import expr_field_names
+    return expr_field_names(expr)[0]
+
+
 def injector_adt(tm, guard_adt):
-    """The crate ADT that has a field of type Vec<guard>: (adt path, field name, field index)."""
-    for p, a in tm.facts.adts.items():
-        for v in a["variants"]:
-            for i, f in enumerate(v["fields"]):
-                t = f["ty"]
-                if t["k"] == "adt" and t["path"] in ("std::vec::Vec", "std::collections::VecDeque") and t.get("args"):
-                    it = t["args"][0].get("ty")
-                    if it and it["k"] == "adt" and it["path"] == guard_adt:
-                        return p, f["name"], i, t["path"]
-    return None, None, None, None
+    """(injector adt, top-level field name, top-level field index, sequence kind) of the public struct that (transitively)
+    owns the Vec<guard>."""
+    from .roles import guard_container
+    r = guard_container(tm.facts, guard_adt)
+    if r is None:
+        return None, None, None, None
+    owner, chain, kind = r
+    return owner, chain[0][1], chain[0][2], kind
+
+
+def container_chain(tm, guard_adt):
+    from .roles import guard_container
+    r = guard_container(tm.facts, guard_adt)
+    return r[1] if r else []
 
 
 def calls_in(body):
@@ -120,76 +139,136 @@ def calls_in(body):
     return out
 
 
+BENIGN_TEARDOWN = ("::pop", "::pop_back", "::reverse", "::drain", "::rev", "::into_iter", "::next", "::next_back", "::len", "::is_empty",
+                   "::iter", "::iter_mut", "::as_mut_slice", "::as_slice", "std::mem::take", "std::mem::drop", "::deref", "::deref_mut",
+                   "::by_ref", "::truncate")
+TAKERS = ("::pop", "::pop_back", "::next", "::next_back")
+
+
+def _is_seq_of_guard(ty, guard_adt):
+    t = ty
+    while t and t.get("k") in ("ref", "ptr"):
+        t = t.get("inner")
+    if t and t.get("k") == "adt" and t.get("path") in ("std::vec::Vec", "std::collections::VecDeque") and t.get("args"):
+        it = t["args"][0].get("ty")
+        return bool(it and it.get("k") == "adt" and it.get("path") == guard_adt)
+    return False
+
+
+def teardown_functions(tm, guard_adt):
+    """Crate functions that take elements from the back of (or reverse) a Vec<guard>: candidates for 'the teardown'."""
+    out = []
+    for b in tm.facts.fn_bodies():
+        for blk in b["blocks"]:
+            t = blk["term"]
+            if t["k"] == "call" and t["callee"]["k"] == "def" and not blk["cleanup"]:
+                c = t["callee"]
+                n = (c.get("resolved") or c)["path"]
+                if n.endswith(("::pop", "::pop_back", "::reverse", "::rev", "::next_back")) or "Rev<" in n:
+                    # does any argument / generic argument mention Vec<guard>?
+                    hit = False
+                    for a_ in t["args"]:
+                        if "place" in a_:
+                            ty = b["locals"][a_["place"]["l"]]["ty"]
+                            if _is_seq_of_guard(ty, guard_adt) or guard_adt in ty.get("s", ""):
+                                hit = True
+                    if hit and b["path"] not in out:
+                        out.append(b["path"])
+    return out
+
+
+def analyse_teardown_fn(tm, fn, guard_adt, field):
+    """('lifo'|'unknown', why) for one teardown function evaluated with its loops havocked."""
+    try:
+        vs = tm.variants(fn, tag="havoc", havoc_loops=True)
+    except Unsupported as e:
+        return "unknown", "%s could not be evaluated: %s" % (short(fn), e)
+    pops = 0
+    exits_on_none = True
+    drops_popped = False
+    reverses = False
+    for v in vs:
+        pe = [e for e in v.trace if e.kind == "ext" and e.name.endswith(TAKERS)]
+        pops += len(pe)
+        if any(e.kind == "ext" and (e.name.endswith("::reverse") or e.name.endswith("::rev") or "Rev<" in e.name or e.name.endswith("::next_back")) for e in v.trace):
+            reverses = True
+        if v.status == "backedge":
+            if any(e.kind == "drop" and guard_adt in e.name for e in v.trace) or any(e.kind == "ext" and e.name == "std::mem::drop" for e in v.trace):
+                drops_popped = True
+        if v.status == "returned" and pe:
+            last = [d for d in v.decisions if d[0].op == "discr" and d[0].args[0].op == "ret" and d[0].args[0].args[0] == pe[-1].name]
+            dv = last[-1][1] if last else None
+            is_none = dv == 0 or (isinstance(dv, tuple) and dv[0] == "otherwise" and 1 in dv[1])
+            if not is_none:
+                exits_on_none = False
+    risky = []
+    for v in vs:
+        for e in v.trace:
+            if e.kind in ("ext", "local", "summary", "indirect"):
+                n = e.name
+                if n.endswith(BENIGN_TEARDOWN) or "Rev<" in n or "Drain<" in n:
+                    continue
+                if v.status == "returned":
+                    pe_ = [x for x in v.trace if x.kind == "ext" and x.name.endswith(TAKERS)]
+                    if pe_ and e.idx > pe_[-1].idx:
+                        continue
+                risky.append(e)
+    if risky:
+        r0 = risky[0]
+        return "unknown", ("%s calls %s (at %s) while guards may still be in `%s`: if it panics, unwinding leaves the remaining guards to the "
+                           "drop glue, which restores them front to back (oldest first)" % (short(fn), short(r0.name), r0.where(), field))
+    takes_back = any(e.name.endswith(("::pop", "::pop_back", "::next_back")) or reverses for v in vs for e in v.trace if e.kind == "ext")
+    if pops:
+        if takes_back and drops_popped and exits_on_none:
+            return "lifo", "%s takes the guards of `%s` from the back until it is empty and drops each" % (short(fn), field)
+        return "unknown", ("%s takes elements but the loop shape is not 'from the back until None, dropping each element' (takes=%d, back=%s, "
+                           "drops=%s, exits-on-None=%s)" % (short(fn), pops, takes_back, drops_popped, exits_on_none))
+    if reverses:
+        return "lifo", "%s reverses the container before the elements are dropped" % short(fn)
+    return "unknown", "%s does not take or reverse the guards" % short(fn)
+
+
 def teardown_order(tm, inj_adt, field, guard_adt):
-    """('lifo'|'fifo'|'unknown', explanation, where) for how the injector releases the guards in `field`."""
-    drop_fn = None
-    for adt, p in tm.drop_impls():
-        if adt == inj_adt:
-            drop_fn = p
-    if drop_fn is None:
-        return "fifo", ("%s has no Drop impl: the drop glue drops the elements of `%s` front to back, i.e. in installation order "
-                        "(Vec<T> drops [0], [1], ... in sequence)" % (short(inj_adt), field)), None, None
-    body = tm.facts.body(drop_fn)
-    names = [n for _, n, t, cl in calls_in(body) if not cl]
-    # inline crate-local helpers one level
-    for _, n, t, cl in calls_in(body):
-        b2 = tm.facts.body(n)
-        if b2 is not None and not cl:
-            names += [n2 for _, n2, _, cl2 in calls_in(b2) if not cl2]
+    """('lifo'|'fifo'|'unknown', explanation, where, fn) for how the owner releases its guards. The explicit destructor of
+    any struct on the ownership chain (injector ... newtype around the Vec) counts; it must be, or begin by calling, a
+    teardown function that empties the container newest-first, with no call that may panic before it."""
+    chain = container_chain(tm, guard_adt)
+    owners = [c[0] for c in chain]
+    dimpls = [(adt, p) for adt, p in tm.drop_impls() if adt in owners]
+    if not dimpls:
+        return "fifo", ("%s has no Drop impl (nor has a wrapper of `%s`): the drop glue drops the elements front to back, i.e. in installation "
+                        "order (Vec<T> drops [0], [1], ... in sequence)" % (short(inj_adt), field)), None, None
+    tfs = teardown_functions(tm, guard_adt)
+    # outermost destructor first: it runs first
+    dimpls.sort(key=lambda x: owners.index(x[0]))
+    adt0, dfn = dimpls[0]
+    body = tm.facts.body(dfn)
     sp = body["span"]
     where_ = "%s:%d" % (sp["file"], sp["line"])
-    BENIGN = ("::pop", "::pop_back", "::reverse", "::drain", "::rev", "::into_iter", "::next", "::next_back", "::len", "::is_empty",
-              "::iter", "::iter_mut", "::as_mut_slice", "::as_slice", "std::mem::take", "std::mem::drop", "::deref", "::deref_mut",
-              "::by_ref", "::truncate")
-    lifo_markers = [n for n in names if n.endswith("::pop") or n.endswith("::pop_back") or n.endswith("::reverse") or n.endswith("::rev")
-                    or "Rev<" in n or n.endswith("::next_back")]
-    if lifo_markers:
-        # make sure the loop runs until the container is empty: evaluate with loop havoc
-        try:
-            vs = tm.variants(drop_fn, tag="havoc", havoc_loops=True)
-        except Unsupported as e:
-            return "unknown", "explicit Drop for %s could not be evaluated: %s" % (short(inj_adt), e), where_, drop_fn
-        pops = 0
-        exits_on_none = True
-        drops_popped = False
-        taker = ("::pop", "::pop_back", "::next", "::next_back")
-        for v in vs:
-            pe = [e for e in v.trace if e.kind == "ext" and e.name.endswith(taker)]
-            pops += len(pe)
-            if v.status == "backedge":
-                if any(e.kind == "drop" and guard_adt in e.name for e in v.trace) or any(e.kind == "ext" and e.name == "std::mem::drop" for e in v.trace):
-                    drops_popped = True
-            if v.status == "returned" and pe:
-                last = [d for d in v.decisions if d[0].op == "discr" and d[0].args[0].op == "ret" and d[0].args[0].args[0] == pe[-1].name]
-                dv = last[-1][1] if last else None
-                is_none = dv == 0 or (isinstance(dv, tuple) and dv[0] == "otherwise" and 1 in dv[1])
-                if not is_none:
-                    exits_on_none = False
-        # a call that may panic while guards are still in the container hands them to the front-to-back drop glue
-        risky = []
-        for v in vs:
-            for e in v.trace:
-                if e.kind in ("ext", "local", "summary", "indirect"):
-                    n = e.name
-                    if n.endswith(BENIGN) or "Rev<" in n or "Drain<" in n:
-                        continue
-                    if v.status == "returned":
-                        pe_ = [x for x in v.trace if x.kind == "ext" and x.name.endswith(taker)]
-                        if pe_ and e.idx > pe_[-1].idx:
-                            continue        # after the loop found the container empty
-                    risky.append(e)
-        if risky:
-            r0 = risky[0]
-            return "unknown", ("explicit Drop for %s calls %s (at %s) while guards may still be in `%s`: if it panics, unwinding leaves the remaining "
-                               "guards to the drop glue, which restores them front to back (oldest first)" % (short(inj_adt), short(r0.name), r0.where(), field)), where_, drop_fn
-        reversing = [n for n in lifo_markers if n.endswith("::reverse") or n.endswith("::rev") or "Rev<" in n or n.endswith("::next_back")]
-        if any(n.endswith("::pop") or n.endswith("::pop_back") for n in lifo_markers) or (reversing and pops):
-            if pops and drops_popped and exits_on_none:
-                return "lifo", "explicit Drop for %s takes the guards of `%s` from the back until it is empty and drops each" % (short(inj_adt), field), where_, drop_fn
-            return "unknown", ("explicit Drop for %s takes elements from the back but the loop shape is not 'until None, dropping each element' "
-                               "(takes=%d, drops=%s, exits-on-None=%s)" % (short(inj_adt), pops, drops_popped, exits_on_none)), where_, drop_fn
-        return "lifo", "explicit Drop for %s reverses the container (%s) before the elements are dropped" % (short(inj_adt), ", ".join(short(n) for n in lifo_markers)), where_, drop_fn
-    return "fifo", "explicit Drop for %s does not reverse or pop `%s`; the drop glue then drops the elements front to back" % (short(inj_adt), field), where_, drop_fn
+    if dfn in tfs:
+        order, why = analyse_teardown_fn(tm, dfn, guard_adt, field)
+        return order, "explicit Drop for %s: %s" % (short(adt0), why), where_, dfn
+    # the destructor delegates: its first effectful call must be a teardown function
+    try:
+        vs = tm.variants(dfn, tag="plain-or-havoc", havoc_loops=True, stop_at=tuple(tfs))
+    except Unsupported as e:
+        return "unknown", "explicit Drop for %s could not be evaluated: %s" % (short(adt0), e), where_, dfn
+    for v in vs:
+        if v.status not in ("returned", "backedge"):
+            continue
+        first = None
+        for e in v.trace:
+            if e.kind == "local" and e.name in tfs:
+                first = e
+                break
+            if e.kind in ("ext", "summary", "indirect", "ffi") and not e.name.endswith(BENIGN_TEARDOWN):
+                return "unknown", ("explicit Drop for %s calls %s (at %s) before the guards are torn down: if it panics, unwinding leaves "
+                                   "them to the drop glue, which restores oldest first" % (short(adt0), short(e.name), e.where())), where_, dfn
+        if first is None:
+            return "fifo", "explicit Drop for %s does not call a teardown of `%s`; the drop glue then drops the elements front to back" % (short(adt0), field), where_, dfn
+    t0 = [e.name for v in vs for e in v.trace if e.kind == "local" and e.name in tfs]
+    order, why = analyse_teardown_fn(tm, t0[0], guard_adt, field)
+    return order, "explicit Drop for %s delegates to %s" % (short(adt0), why), where_, dfn
 
 
 def insertion_discipline(tm, guard_adt):
@@ -267,3 +346,18 @@ def release_rules(ck, tm, g, rule):
                       "reject edge calls %s(%s, %s) for the mapping %s of size %s" % (short(f.name), fmt(f.args[0].e, 3), fmt(f.args[1].e, 3),
                                                                                         fmt(maps[-1].ret.e, 3) if maps else "?", fmt(maps[-1].args[1].e, 3) if maps else "?"), where(f))
 
+
+
+def chain_mutations(tm, guard_adt):
+    """Non-append uses of `&mut` on any level of the ownership chain of the guards container, outside destructors of the
+    owners and the teardown functions."""
+    from . import scans
+    chain = container_chain(tm, guard_adt)
+    owners = [c[0] for c in chain]
+    excl = tuple(p_ for adt_, p_ in tm.drop_impls() if adt_ in owners) + tuple(teardown_functions(tm, guard_adt))
+    out = []
+    for i, (adt, fname, fidx) in enumerate(chain):
+        last = i == len(chain) - 1
+        for fn, what, line in scans.container_mutations(tm.facts, adt, fidx, exclude_fns=excl, allow_local=True):
+            out.append((fn, what, line, "%s.%s" % (short(adt), fname)))
+    return out
